@@ -207,6 +207,7 @@ def gen(t, tier):
           'two_sources': not anylink and bool(t.chance(0.3))}
     # a second on_error mapping with the same colour whose fill image is to be cached (404), next to the uncached 500
     sc['err404'] = not sc['two_sources'] and not anylink and bool(t.chance(0.3))
+    sc['err_default'] = sc['err404'] and bool(t.chance(0.5))
     # a cache on top of another cache with a different tile size (same SRS and resolutions): the outer cache cuts its (meta)
     # tiles out of the merged tiles of the inner one; tiles are only ever created, never rewritten, in these cases
     sc['cascade'] = backend == 'file' and not sc['two_sources'] and not sc['err404'] and bool(t.chance(0.15))
@@ -414,6 +415,9 @@ def _run(sc, tape):
         # a second error mapping with the same fill colour that IS to be cached (a 404 of the upstream = "no data here")
         conf['sources']['src']['on_error'] = {404: {'response': sc['fill'], 'cache': True},
                                               500: {'response': sc['fill'], 'cache': False}}
+        if sc.get('err_default'):
+            # the entry for 500 leaves `cache` to its documented default (False) and comes after the caching one
+            del conf['sources']['src']['on_error'][500]['cache']
 
     layer_param = 'lay'
     if sc.get('wmsc2'):
